@@ -224,14 +224,14 @@ def block_env(stmts, target, env=None, unpack=False):
 
 def inline(e, env):
     """copy of expression `e` with the names bound in env (name -> expression) replaced, transitively"""
-    import copy
+    from ..normalise import _clone
 
     class T(ast.NodeTransformer):
         def visit_Name(self, n):
             if isinstance(n.ctx, ast.Load) and n.id in env and env[n.id] is not None:
-                return T().visit(copy.deepcopy(env[n.id]))
+                return T().visit(_clone(env[n.id]))
             return n
-    return ast.fix_missing_locations(T().visit(copy.deepcopy(e)))
+    return ast.fix_missing_locations(T().visit(_clone(e)))
 
 
 def spec_expr(text):
